@@ -200,7 +200,9 @@ def run(ctx):
     nf = 60 if ctx.tier == 'quick' else 10000
     p2 = os.path.join(ctx.tmpdir, 'c20b.fcs')
     for cid, rng in ctx.cases([('file', i) for i in range(nf)]):
-        spec = zoo.int_spec(rng, n=int(rng.integers(1, 20)), d=int(rng.integers(1, 5))) if rng.random() < 0.6 else \
+        bigf = cid[1] % 30 == 4          # a file of tens of thousands of events: the differing event is one of the last ones
+        spec = zoo.int_spec(rng, n=int(rng.integers(1, 20)) if not bigf else int(rng.choice([70001, 100000, 150000])),
+                            d=int(rng.integers(1, 5)) if not bigf else 2) if (rng.random() < 0.6 or bigf) else \
             zoo.float_spec(rng, n=int(rng.integers(1, 20)), d=int(rng.integers(1, 5)))
         raw, _ = fcsgen.build(spec)
         open(path, 'wb').write(raw)
@@ -212,6 +214,8 @@ def run(ctx):
         # one event changed
         sp2 = dict(spec, events=[list(r) for r in spec['events']])
         i, j = int(rng.integers(len(sp2['events']))), int(rng.integers(len(spec['widths'])))
+        if bigf:
+            i = len(sp2['events']) - 1 - int(rng.integers(0, 3000))
         v = sp2['events'][i][j]
         sp2['events'][i][j] = (v + 1) if spec['datatype'] != 'I' else ((v + 1) % spec['ranges'][j])
         if sp2['events'][i][j] != v:
